@@ -809,6 +809,17 @@ func init() {
 				}
 			}
 			meta.Histogram["deepObject cases"] = nd
+			for _, cc := range compCases() {
+				cc := cc
+				sig, detail := runComp(&cc)
+				meta.Histogram["composition "+cc.Comp]++
+				if sig != "" {
+					sig += ":" + cc.Comp + ":" + cc.In + "/" + cc.Style
+					meta.Histogram["oracle:"+sig]++
+					meta.GoViolation = append(meta.GoViolation, map[string]any{"signature": sig, "cases": []any{cc}, "go_observation": detail,
+						"judgement": "parameter schema composition on the Go side: " + sig + " " + detail})
+				}
+			}
 		}
 		meta.NCases = len(cases)
 		meta.Files = writeCases(outDir, "From KV Require Import Model.Base Model.Json Model.Schema Model.Request Model.ParamCodec Spec.ParamSpec Exec.C05Exec.", "c05case", "judge", terms, meta.Shard)
